@@ -10,7 +10,7 @@ def main():
     replay = sys.argv[sys.argv.index("--replay") + 1] if "--replay" in sys.argv else None
     ck = V.Check("C01", tier)
     rng = ck.rng
-    ck.proof_leg(["Extract/Extract_bounds.vo"])
+    ck.proof_leg(["Extract/Extract_bounds.vo", "Extract/Extract_envelope.vo"])
     drv = {"asan+ubsan": V.build_driver("c01_drv", ["c01_drv.c"]), "msan": V.build_driver("c01_drv", ["c01_drv.c"], variant="msan")}
     model = V.ocaml_build("bounds")
     env = V.san_env({"MSAN_OPTIONS": "exitcode=86:halt_on_error=1"})
@@ -111,6 +111,41 @@ def main():
                                   "what": "a successfully loaded module fails the extracted predicates: %s" % o, "broken": "public_wfb / consumers_okb on a real dump"}, key="c01:wf:" + o.split()[0])
     finally:
         shutil.rmtree(tmpd, ignore_errors=True)
+    # ---- envelope evaluation: Model/Envelope.v (get_envelope and the three update_envelope flavours with every array access checked)
+    #      against the static functions of player.c (compiled into the driver), on envelopes satisfying the C03 clause
+    if not replay or json.load(open(replay)).get("engine") == "envelope":
+        emodel = V.ocaml_build("envelope"); edrv = V.build_driver("env_drv", ["env_drv.c"])
+        lines = []
+        if replay: lines = [json.load(open(replay))["case"]]
+        for _ in range(0 if replay else (6000 if tier == "quick" else 200000)):
+            npt = rng.choice((1, 1, 2, 3, 5, 12, 25, 32))
+            xs = sorted(rng.sample(range(0, 400), npt)) if rng.random() < 0.8 else [rng.randrange(0, 300) for _ in range(npt)]
+            if rng.random() < 0.2 and npt > 1: xs[rng.randrange(1, npt)] = xs[0]
+            data = [0] * 64
+            for i in range(npt): data[2 * i] = xs[i]; data[2 * i + 1] = rng.choice((0, 64, rng.randrange(0, 65), rng.randrange(-100, 200)))
+            for i in range(npt, 32):
+                if rng.random() < 0.3: data[2 * i] = rng.randrange(0, 500); data[2 * i + 1] = rng.randrange(0, 65)
+            flg = 1 | (2 if rng.random() < 0.5 else 0) | (4 if rng.random() < 0.5 else 0) | rng.choice((0, 0, 8, 16, 32))
+            if rng.random() < 0.05: flg &= ~1
+            pnt = lambda: rng.randrange(0, npt)
+            sus, sue, lps, lpe = pnt(), pnt(), pnt(), pnt()
+            if rng.random() < 0.5: sue = max(sus, sue); lpe = max(lps, lpe)
+            if rng.random() < 0.2: sus = lpe
+            x = rng.choice((-2, -1, 0, 1, 2, rng.randrange(0, 450), rng.choice(xs), rng.choice(xs) + 1, rng.choice(xs) - 1, 65534, 65535, 65536, 70000))
+            lines.append("%d %d %d %d %d %d | %s | %d %d %d" % (flg, npt, sus, sue, lps, lpe, " ".join(map(str, data)), x, rng.randrange(2), rng.randrange(2)))
+        inp = "\n".join(lines) + "\n"
+        mo = V.run([emodel], inp=inp, timeout=3000).stdout.split("\n")
+        rc = V.run([edrv], inp=inp, env=V.san_env(), timeout=3000)
+        co = rc.stdout.split("\n"); ne = 0
+        for l, m, c in zip(lines, mo, co):
+            ck.count(); mm = m.split(" ", 1)
+            if mm[0] == "1" and "OOB" in m: raise V.BuildError("Model/Envelope.v leaves the point array on an envelope satisfying env_okb: theorem *_in_bounds would be false (%s)" % l[:80])
+            if len(mm) < 2 or mm[1] != c:
+                ne += 1
+                if ne <= 3: ck.violation({"engine": "envelope", "case": l, "expected_model": m, "got_impl": c, "broken": "correspondence: Model/Envelope.v vs get_envelope / update_envelope of src/player.c"}, key="c01:envelope")
+            else: ck.nontrivial(("env", l))
+        if rc.returncode != 0: ck.violation({"engine": "envelope", "broken": "sanitizer report / crash in the envelope functions", "stderr": rc.stderr[-1500:]}, key="c01-envelope-crash")
+        stats["envelope_cases"] = len(lines); stats["envelope_disagreements"] = ne
     ck.engine_stat("bounds", **stats)
     ck.cov["rule"] = ("corpus modules, their field-mutated / truncated / bit-flipped variants and the fuzzer regression inputs of test-dev/data/f, each through one of the four test entry points and the matching load entry point; every module that loads "
                       "is dumped and then driven through two player cycles under seeded output configurations (6 rates x 5 formats x 3 interpolators, voice limits) with 25-85 calls each of play_frame / play_buffer / set_position / next / prev / set_row / "
